@@ -1457,6 +1457,51 @@ fn parse_mapping(mapping: &Mapping) -> crate::Result<Expression> {
                         }
                     }
                 }
+                // NOTE: all() / of() count the members of the list. A batch (automaton or regex set)
+                // only counts its own members when it is the sole entry of the group, so as soon
+                // as the group would hold several entries every member is kept as a search of its
+                // own
+                let entries = group.len()
+                    + rest.len()
+                    + !needles.is_empty() as usize
+                    + !ineedles.is_empty() as usize
+                    + !regex_set.is_empty() as usize
+                    + !iregex_set.is_empty() as usize;
+                if matches!(&e, Expression::Match(_, _)) && entries > 1 {
+                    needles.clear();
+                    for m in context.drain(..) {
+                        let s = match m {
+                            MatchType::Contains(c) => Search::Contains(c),
+                            MatchType::EndsWith(c) => Search::EndsWith(c),
+                            MatchType::Exact(c) => Search::Exact(c),
+                            MatchType::StartsWith(c) => Search::StartsWith(c),
+                        };
+                        group.push(Expression::Search(s, f.to_owned(), cast));
+                    }
+                    for (m, needle) in icontext.drain(..).zip(ineedles.drain(..)) {
+                        group.push(Expression::Search(
+                            Search::AhoCorasick(
+                                Box::new(
+                                    AhoCorasickBuilder::new()
+                                        .ascii_case_insensitive(true)
+                                        .kind(Some(AhoCorasickKind::DFA))
+                                        .build(vec![needle])
+                                        .expect("failed to build dfa"),
+                                ),
+                                vec![m],
+                                true,
+                            ),
+                            f.to_owned(),
+                            cast,
+                        ));
+                    }
+                    for r in regex_set.drain(..) {
+                        group.push(Expression::Search(Search::Regex(r, false), f.to_owned(), cast));
+                    }
+                    for r in iregex_set.drain(..) {
+                        group.push(Expression::Search(Search::Regex(r, true), f.to_owned(), cast));
+                    }
+                }
                 if !needles.is_empty() {
                     if needles.len() == 1 {
                         let s = match context.into_iter().next().expect("failed to get context") {
